@@ -309,3 +309,16 @@ impl RenetServer {
         Ok(())
     }
 }
+
+#[cfg(feature = "verif_hooks")]
+impl RenetServer {
+    /// Read access to the connection of a client for external verification harnesses.
+    pub fn verif_connection(&self, client_id: ClientId) -> Option<&RenetClient> {
+        self.connections.get(&client_id)
+    }
+
+    /// Mutable access, only used to seed counters of a fresh connection.
+    pub fn verif_connection_mut(&mut self, client_id: ClientId) -> Option<&mut RenetClient> {
+        self.connections.get_mut(&client_id)
+    }
+}
